@@ -374,12 +374,19 @@ func (it *Interp) inline(fr *Frame, fi *load.FuncInfo, recv Value, args []Value,
 	}
 	ret := nf.Ret
 	// contract override
-	if it.Mode == ModeContracts && fi.Fn.Name() == "Compute" {
+	if it.Mode == ModeContracts && fi.Fn.Name() == "Compute" && isIndicatorPkg(fi.Pkg.PkgPath) {
 		if o, ok := recv.(*Object); ok && it.hasMethod(o, "IdlePeriod") {
 			it.applyContract(fr, o, args, ret, call)
 		}
 	}
 	return ret
+}
+
+// isIndicatorPkg: the warm-up contract (n - IdlePeriod values anchored at IdlePeriod) is that of
+// the four indicator packages; strategies that happen to declare an IdlePeriod emit n actions.
+func isIndicatorPkg(path string) bool {
+	rel := load.RelPkg(path)
+	return rel == "trend" || rel == "momentum" || rel == "volatility" || rel == "volume"
 }
 
 func resultNamed(fn *types.Func) types.Type {
